@@ -8,19 +8,24 @@
   object hands out the program headers `hs` (the C01 guarantee for the
   container; in the stripped image there is nothing else to rely on).
 
-  Full statement of the design, kept visible:
+  Full statement of the design:
       segment_view_eq_section_view : WF d → obs (model (assembleStripped d)) = obs (model (assembleFull d))
-  What is proved is that statement with the container accessors of `ELFFile`
-  (`get_segment`, `get_section`, the constructors' section search) replaced by
-  the hypotheses `TableView` / `SegsView` / `d.strtab = …`: everything dynamic.py
-  itself computes is covered, the container facts are C01's and are exercised
-  end to end by the correspondence harness.
+  is proved below (`segment_view_eq_section_view`, `…_assembled`): the two layouts of a `DynDesc`
+  are `Spec.ElfDesc`s (`DynDesc.container`, the very description whose regions `DynDesc.assemble`
+  lays out), and the container accessors of `ELFFile` (`get_segment`, `get_section`, the
+  constructors' section search) are C01's theorems applied to them (Proofs/DynamicImage.lean).
+  The earlier statement with those accessors as hypotheses (`TableView` / `SegsView` /
+  `d.strtab = …`) is kept as `segment_view_eq_section_view_partial`.
 -/
 import PyElf.Spec.Dynamic
 import PyElf.Model.Dynamic
 import PyElf.Proofs.Dynamic
 import PyElf.Proofs.DynamicGnu
+import PyElf.Proofs.DynamicImage
+import PyElf.Proofs.DynamicSym
 import PyElf.Props.TieC09
+import PyElf.Props.TieC09Sh
+import PyElf.Props.C01
 namespace PyElf.Props.C09
 open PyElf PyElf.Spec PyElf.Spec.Dynamic PyElf.Model PyElf.Model.Dynamic PyElf.Proofs.Dynamic PyElf.Props.TieC09
 
@@ -152,6 +157,104 @@ theorem segment_view_eq_section_view_partial (c : ElfCfg) (tags : List (Int × N
     (strings_resolved_pointer dataS strtab restS offS hplS VS.small) hstr
   exact ⟨eS.1.trans eF.1.symm, eS.2.trans eF.2.symm⟩
 
+/-! ### the full statement: two layouts of one description -/
+
+/-- what the property observes through a dynamic object: `list(iter_tags())` (entries with their
+    strings) and `num_tags()` -/
+structure TagObs where
+  tags : R (List DTag)
+  numTags : R Nat
+
+def tagObs (f : ElfFile) (dy : Dyn) : TagObs :=
+  ⟨iterTags elfEnv f.S f.data (realIfc elfEnv f) dy none, numTags elfEnv f.S f.data (realIfc elfEnv f) dy⟩
+
+/-- `obs`, section side: open the image, take its first `DynamicSection` (none in a stripped image) -/
+def secObs (bytes : Bytes) : R (Option TagObs) := do
+  let f ← openElf elfEnv C01.specStructs C01.specMachineClass bytes
+  match ← dynamicSection elfEnv f with
+  | none => return none
+  | some dy => return some (tagObs f dy)
+
+/-- `obs`, segment side (tags): open the image, take its first `DynamicSegment` -/
+def segObs (bytes : Bytes) : R (Option TagObs) := do
+  let f ← openElf elfEnv C01.specStructs C01.specMachineClass bytes
+  match ← dynamicSegment elfEnv f with
+  | none => return none
+  | some dy => return some (tagObs f dy)
+
+/-- what must be observed (Spec/Dynamic.lean `obsTags`, `DynDesc.live`) -/
+def specTagObs (d : DynDesc) : TagObs :=
+  ⟨.ok (d.live.map (obsEntry elfEnv (tbl d.cfg) (sunw d.cfg) d.strtab)), .ok d.live.length⟩
+
+/-- `specTagObs` is the Spec's `obsTags` (the `expect` of the correspondence check) -/
+theorem specTagObs_eq (d : DynDesc) :
+    obsTags elfEnv d = (specTagObs d).tags.map (·.map fun t => (t.entry, t.attr)) := by
+  unfold obsTags specTagObs
+  simp only [Except.map]
+  have : ∀ l : List (Int × Nat), l.mapM (obsTag elfEnv d)
+      = .ok ((l.map (obsEntry elfEnv (tbl d.cfg) (sunw d.cfg) d.strtab)).map fun t => (t.entry, t.attr)) := by
+    intro l
+    induction l with
+    | nil => rfl
+    | cons t l ih =>
+      have h1 : obsTag elfEnv d t = .ok ((obsEntry elfEnv (tbl d.cfg) (sunw d.cfg) d.strtab t).entry,
+          (obsEntry elfEnv (tbl d.cfg) (sunw d.cfg) d.strtab t).attr) := by
+        unfold obsTag
+        have : d.S.Elf_Dyn = dynCon d.le d.w (tbl d.cfg) := spec_dyn d.cfg
+        rw [this, decodeRaw_dyn]
+        simp only [bind, Except.bind, obsEntry]
+        have hs : d.sunw = sunw d.cfg := rfl
+        rw [hs]
+        cases stringAttr (sunw d.cfg) t.1 <;> rfl
+      simp [List.mapM_cons, h1, ih, bind, Except.bind, pure, Except.pure]
+  exact this d.live
+
+/-- the tags and strings of one layout, through its `DynamicSegment` -/
+theorem seg_tags_exact (d : DynDesc) (full : Bool) (bytes : Bytes)
+    (hc : (d.container full).wf elfEnv = true) (hd : d.wf elfEnv full = true)
+    (hl : DynLayout d full bytes) (hsmall : bytes.length < 2 ^ 63) :
+    segObs bytes = .ok (some (specTagObs d)) := by
+  have F := tag_facts d.cfg
+  obtain ⟨f, dy, tab, X⟩ := segSide_of sh_types (d := d) F.null F.strtab hc hd hl hsmall
+  have W := dyn_wf hd
+  have V : View d.cfg f.data dy d.tags := by have := X.view; rwa [X.S] at this
+  have e := tags_exact d.cfg f.data (realIfc elfEnv f) dy d.tags d.strtab tab V W.term
+    (by have := X.strtab; rwa [X.S] at this) X.serves (stringsOk_tags W.strings)
+  unfold segObs
+  simp only [X.opened, X.seg, bind, Except.bind, pure, Except.pure, tagObs, X.S]
+  have e1 : iterTags elfEnv d.S f.data (realIfc elfEnv f) dy none = _ := e.1
+  have e2 : numTags elfEnv d.S f.data (realIfc elfEnv f) dy = _ := e.2
+  rw [e1, e2]
+  rfl
+
+/-- the tags and strings of the full layout, through its `DynamicSection`; a stripped image has none -/
+theorem sec_tags_exact (d : DynDesc) (bytes : Bytes)
+    (hc : (d.container true).wf elfEnv = true) (hd : d.wf elfEnv true = true)
+    (hl : DynLayout d true bytes) (hsmall : bytes.length < 2 ^ 63) :
+    secObs bytes = .ok (some (specTagObs d)) := by
+  have F := tag_facts d.cfg
+  obtain ⟨f, dy0, tab0, X⟩ := segSide_of sh_types (d := d) F.null F.strtab hc hd hl hsmall
+  obtain ⟨dy, tab, Y⟩ := secSide_of sh_types hc hd hl hsmall f X.opened
+  have W := dyn_wf hd
+  have V : View d.cfg f.data dy d.tags := by have := Y.view; rwa [X.S] at this
+  have e := tags_exact d.cfg f.data (realIfc elfEnv f) dy d.tags d.strtab tab V W.term
+    (by have := Y.strtab; rwa [X.S] at this) Y.serves (stringsOk_tags W.strings)
+  unfold secObs
+  simp only [X.opened, Y.sec, bind, Except.bind, pure, Except.pure, tagObs, X.S]
+  have e1 : iterTags elfEnv d.S f.data (realIfc elfEnv f) dy none = _ := e.1
+  have e2 : numTags elfEnv d.S f.data (realIfc elfEnv f) dy = _ := e.2
+  rw [e1, e2]
+  rfl
+
+theorem sec_stripped_none (d : DynDesc) (bytes : Bytes)
+    (hc : (d.container false).wf elfEnv = true) (hd : d.wf elfEnv false = true)
+    (hl : DynLayout d false bytes) :
+    secObs bytes = .ok none := by
+  have W := dyn_wf hd
+  obtain ⟨f, hopen, FF⟩ := file_facts hc (layout_container hl) (segs_decode W.phlen)
+  unfold secObs
+  simp [hopen, dynamicSection_stripped FF, bind, Except.bind, pure, Except.pure]
+
 /-! ### dynamic symbols -/
 
 /-- with a SysV hash table (and no GNU one) the recovered count is the true count: gABI `nchain` =
@@ -209,8 +312,9 @@ theorem num_symbols_exact (c : ElfCfg) (data : Bytes) (ifc : FileIfc) (d : Dyn) 
   · exact num_symbols_exact_sysv c data ifc d tags hs V hterm SV iterSegs hnog a o ha ho h nsyms hw rest hd
 
 /-- the symbols the segment view enumerates are the stored ones, each named through the string
-    table; PARTIAL in that the count is a hypothesis (`num_symbols_exact_*` supply it) -/
-theorem symbols_exact (c : ElfCfg) (data : Bytes) (ifc : FileIfc) (d : Dyn) (tags : List (Int × Nat))
+    table; PARTIAL in that the count (`hnum`) and the decoding of the stored records (`SymView.dec`)
+    are hypotheses.  `symbols_exact` below discharges both. -/
+theorem symbols_exact_partial (c : ElfCfg) (data : Bytes) (ifc : FileIfc) (d : Dyn) (tags : List (Int × Nat))
     (hs : List Val) (V : View c data d tags) (hterm : hasTerminator tags = true) (SV : SegsView ifc hs)
     (iterSegs : R (List (String × Val)))
     (a symOff : Nat) (ha : firstVal (liveTags tags) DT_SYMTAB = some a) (ho : mapAddr hs a = some symOff)
@@ -229,6 +333,151 @@ theorem symbols_exact (c : ElfCfg) (data : Bytes) (ifc : FileIfc) (d : Dyn) (tag
   have := getSymbol_view V F.null hterm SV F.symtab ha ho Y hst hserve i hi h2 (hnames _ (List.getElem_mem hi))
   rw [this]
   simp [List.getD, List.getElem?_eq_getElem hi, List.getElem?_eq_getElem h2]
+
+/-- FULL.  The symbol table (raw records `syms`, encodable) stored where DT_SYMTAB points, a hash
+    table as in `num_symbols_exact` stored where its tag points: `iter_symbols()` yields exactly
+    `syms.length` symbols, the `i`-th being the decoding `es[i]` of `syms[i]` named by the string its
+    `st_name` designates.  Neither the count nor the decoding of `st_name` is assumed. -/
+theorem symbols_exact (c : ElfCfg) (data : Bytes) (ifc : FileIfc) (d : Dyn) (tags : List (Int × Nat))
+    (hs : List Val) (V : View c data d tags) (hterm : hasTerminator tags = true) (SV : SegsView ifc hs)
+    (iterSegs : R (List (String × Val)))
+    (a symOff : Nat) (ha : firstVal (liveTags tags) DT_SYMTAB = some a) (ho : mapAddr hs a = some symOff)
+    (syms : List Fields) (sb rest : Bytes)
+    (henc : encAll (S c).Elf_Sym (syms.map .record) = some sb) (hpl : data.drop symOff = sb ++ rest)
+    (tab : StrTab) (strtab : Bytes) (hst : getStringtable elfEnv (S c) data ifc d = .ok (some tab))
+    (hserve : Serves data tab strtab)
+    (hnames : ∀ s ∈ syms, (strAt strtab (getNatD s "st_name")).isSome)
+    (hwf :
+      (∃ a o h rest, firstVal (liveTags tags) DT_GNU_HASH = some a ∧ mapAddr hs a = some o ∧
+          GnuHash.wf h syms.length = true ∧ data.drop o = h.enc c.le (c.cls / 8) ++ rest) ∨
+      (firstVal (liveTags tags) DT_GNU_HASH = none ∧
+        ∃ a o h rest, firstVal (liveTags tags) DT_HASH = some a ∧ mapAddr hs a = some o ∧
+          SysvHash.wf h syms.length = true ∧ data.drop o = h.enc c.le ++ rest)) :
+    ∃ es : List Val, es.length = syms.length ∧
+      (∀ i (h1 : i < syms.length) (h2 : i < es.length),
+        (S c).Elf_Sym.decodeRaw elfEnv [] (.record syms[i]) = .ok es[i]) ∧
+      numSymbols elfEnv (S c) data ifc d iterSegs c.le = .ok syms.length ∧
+      iterSymbols elfEnv (S c) data ifc d iterSegs c.le
+        = .ok ((List.range syms.length).map fun i =>
+                ((strAt strtab (getNatD (syms.getD i []) "st_name")).getD [], es.getD i .none)) := by
+  obtain ⟨es, Y⟩ := symView_of elfEnv c data symOff syms sb rest henc hpl
+  have hnum := num_symbols_exact c data ifc d tags hs V hterm SV iterSegs syms.length hwf
+  exact ⟨es, Y.len, fun i h1 h2 => (Y.dec i h1 h2).1, hnum,
+    symbols_exact_partial c data ifc d tags hs V hterm SV iterSegs a symOff ha ho syms es Y tab strtab hst hserve
+      hnames hnum⟩
+
+/-- `obs`, segment side (symbols): `list(iter_symbols())` and `num_symbols()` of the image's
+    `DynamicSegment` -/
+structure SymObs where
+  symbols : R (List (Bytes × Val))
+  numSymbols : R Nat
+
+def symObs (bytes : Bytes) : R (Option SymObs) := do
+  let f ← openElf elfEnv C01.specStructs C01.specMachineClass bytes
+  match ← dynamicSegment elfEnv f with
+  | none => return none
+  | some dy =>
+    let segs := iterSegments elfEnv f.S f.data f.header f.shstr
+    return some ⟨iterSymbols elfEnv f.S f.data (realIfc elfEnv f) dy segs f.le,
+                 numSymbols elfEnv f.S f.data (realIfc elfEnv f) dy segs f.le⟩
+
+/-- what must be observed (Spec/Dynamic.lean `obsSyms`; the true count) -/
+def specSymObs (d : DynDesc) : SymObs := ⟨obsSyms elfEnv d, .ok d.syms.length⟩
+
+/-- the dynamic symbols and their count of one layout, through its `DynamicSegment`, when a
+    well-formed GNU or SysV hash table is present (`hashOk`); the observation is defined (every
+    encodable symbol record decodes) -/
+theorem seg_symbols_exact (d : DynDesc) (full : Bool) (bytes : Bytes)
+    (hc : (d.container full).wf elfEnv = true) (hd : d.wf elfEnv full = true)
+    (hl : DynLayout d full bytes) (hsmall : bytes.length < 2 ^ 63) (hh : hashOk d = true) :
+    symObs bytes = .ok (some (specSymObs d)) ∧ ∃ ss, obsSyms elfEnv d = .ok ss ∧ ss.length = d.syms.length := by
+  have F := tag_facts d.cfg
+  obtain ⟨f, dy, tab, X⟩ := segSide_of sh_types (d := d) F.null F.strtab hc hd hl hsmall
+  have W := dyn_wf hd
+  have V : View d.cfg f.data dy d.tags := by have := X.view; rwa [X.S] at this
+  obtain ⟨b, B, hpl⟩ := X.blobs
+  obtain ⟨sb, hsb, hmem⟩ := B.syms
+  obtain ⟨rest, hrest⟩ := hpl _ hmem
+  obtain ⟨a, ha, ho⟩ := ptrOk_some W.symtab
+  obtain ⟨es, Y⟩ := symView_of elfEnv d.cfg f.data d.symOff d.syms sb rest hsb hrest
+  have hobs := obsSyms_eq (d := d) Y
+  have hnum := num_symbols_exact d.cfg f.data (realIfc elfEnv f) dy d.tags (d.phdrs elfEnv) V W.term X.segs
+    (iterSegments elfEnv f.S f.data f.header f.shstr) d.syms.length (hash_wf W hh B hpl)
+  have hit := symbols_exact_partial d.cfg f.data (realIfc elfEnv f) dy d.tags (d.phdrs elfEnv) V W.term X.segs
+    (iterSegments elfEnv f.S f.data f.header f.shstr) a d.symOff ha ho d.syms es Y tab d.strtab
+    (by have := X.strtab; rwa [X.S] at this) X.serves (stringsOk_syms W.strings) hnum
+  refine ⟨?_, _, hobs, by simp⟩
+  unfold symObs
+  simp only [X.opened, X.seg, bind, Except.bind, pure, Except.pure, X.S, X.le, specSymObs]
+  rw [X.S] at hit hnum
+  have e1 : iterSymbols elfEnv d.S f.data (realIfc elfEnv f) dy
+      (iterSegments elfEnv d.S f.data f.header f.shstr) d.le = obsSyms elfEnv d := by rw [hobs]; exact hit
+  have e2 : numSymbols elfEnv d.S f.data (realIfc elfEnv f) dy
+      (iterSegments elfEnv d.S f.data f.header f.shstr) d.le = .ok d.syms.length := hnum
+  rw [e1, e2]
+
+/-- `get_table_offset` through the `DynamicSegment` of either layout: the pointer of the first live
+    entry and the file offset the described PT_LOADs give it (Spec `obsTableOffset`), for the tags
+    the reader itself follows — the same answer from the stripped and the full image -/
+theorem seg_table_offsets_exact (d : DynDesc) (full : Bool) (bytes : Bytes)
+    (hc : (d.container full).wf elfEnv = true) (hd : d.wf elfEnv full = true)
+    (hl : DynLayout d full bytes) (hsmall : bytes.length < 2 ^ 63) :
+    ∃ f dy, openElf elfEnv C01.specStructs C01.specMachineClass bytes = .ok f ∧
+      dynamicSegment elfEnv f = .ok (some dy) ∧
+      ∀ nc ∈ [("DT_STRTAB", DT_STRTAB), ("DT_SYMTAB", DT_SYMTAB), ("DT_HASH", DT_HASH), ("DT_GNU_HASH", DT_GNU_HASH)],
+        getTableOffset elfEnv f.S f.data (realIfc elfEnv f) dy nc.1 = .ok (obsTableOffset elfEnv d nc.2) := by
+  have F := tag_facts d.cfg
+  obtain ⟨f, dy, tab, X⟩ := segSide_of sh_types (d := d) F.null F.strtab hc hd hl hsmall
+  have W := dyn_wf hd
+  have V : View d.cfg f.data dy d.tags := by have := X.view; rwa [X.S] at this
+  refine ⟨f, dy, X.opened, X.seg, ?_⟩
+  intro nc hnc
+  have := table_offset_exact d.cfg f.data (realIfc elfEnv f) dy d.tags (d.phdrs elfEnv) V W.term X.segs nc hnc
+  rw [X.S]
+  rw [show getTableOffset elfEnv d.S f.data (realIfc elfEnv f) dy nc.1 = _ from this]
+  unfold obsTableOffset DynDesc.live
+  cases firstVal (liveTags d.tags) nc.2 <;> rfl
+
+/-- FULL STATEMENT of the design: `WF d → obs (assembleStripped d) = obs (assembleFull d)`, for any
+    two byte strings carrying the two layouts of one description.  `DynDesc.WF`: the dynamic
+    information is well formed in both layouts and both containers are well-formed ELF descriptions
+    in the sense of C01.  The `DynamicSegment` of the image without section headers, the
+    `DynamicSegment` of the image with them and its `DynamicSection` (whether the `.dynamic` section
+    sits at the segment's offset or elsewhere) report the same entries, strings and count — the
+    ones the description holds — and, when a well-formed hash table is present, the same dynamic
+    symbols and symbol count.  The container accessors of `ELFFile` are no longer assumed: they
+    are C01's theorems (`open_exact`, `counts_exact`, `get_section_exact`, `segments_exact`)
+    applied to `DynDesc.container`. -/
+theorem segment_view_eq_section_view (d : DynDesc) (imgF imgS : Bytes) (hwf : d.WF elfEnv = true)
+    (hF : DynLayout d true imgF) (hS : DynLayout d false imgS)
+    (hsF : imgF.length < 2 ^ 63) (hsS : imgS.length < 2 ^ 63) :
+    segObs imgS = secObs imgF ∧ segObs imgS = segObs imgF ∧
+    secObs imgF = .ok (some (specTagObs d)) ∧ secObs imgS = .ok none ∧
+    (hashOk d = true → symObs imgS = symObs imgF ∧ symObs imgF = .ok (some (specSymObs d))) := by
+  unfold DynDesc.WF at hwf
+  simp only [Bool.and_eq_true] at hwf
+  obtain ⟨⟨⟨hdT, hdF⟩, hcT⟩, hcF⟩ := hwf
+  have h1 := seg_tags_exact d false imgS hcF hdF hS hsS
+  have h2 := seg_tags_exact d true imgF hcT hdT hF hsF
+  have h3 := sec_tags_exact d imgF hcT hdT hF hsF
+  refine ⟨h1.trans h3.symm, h1.trans h2.symm, h3, sec_stripped_none d imgS hcF hdF hS, ?_⟩
+  intro hh
+  have s1 := (seg_symbols_exact d false imgS hcF hdF hS hsS hh).1
+  have s2 := (seg_symbols_exact d true imgF hcT hdT hF hsF hh).1
+  exact ⟨s1.trans s2.symm, s2⟩
+
+/-- the same for the images the assembler produces -/
+theorem segment_view_eq_section_view_assembled (d : DynDesc) (imgF imgS : Bytes) (hwf : d.WF elfEnv = true)
+    (hF : d.assemble true = some imgF) (hS : d.assemble false = some imgS)
+    (hsF : imgF.length < 2 ^ 63) (hsS : imgS.length < 2 ^ 63) :
+    segObs imgS = secObs imgF ∧ segObs imgS = segObs imgF ∧
+    secObs imgF = .ok (some (specTagObs d)) ∧ secObs imgS = .ok none ∧
+    (hashOk d = true → symObs imgS = symObs imgF ∧ symObs imgF = .ok (some (specSymObs d))) := by
+  have hwf' := hwf
+  unfold DynDesc.WF at hwf'
+  simp only [Bool.and_eq_true] at hwf'
+  exact segment_view_eq_section_view d imgF imgS hwf (assemble_dynLayout hwf'.1.1.1 hF)
+    (assemble_dynLayout hwf'.1.1.2 hS) hsF hsS
 
 /-! ### non-vacuity -/
 
@@ -280,5 +529,37 @@ example : SegsView ⟨.ok 1, fun _ => .ok ("Segment", exPhdr), fun _ => .ok none
     exact ⟨.str "PT_LOAD", 0x1000, 0x80, 0x200, rfl, rfl, rfl, rfl⟩
 
 example : mapAddr [exPhdr] 0x1000 = some 0x200 := by decide
+
+/-- a concrete stored symbol table satisfying `SymView`: two 64-bit LSB records (`st_name` 0 and 6,
+    GLOBAL FUNC, value 0x1000, size 8) stored 2 bytes into a byte string and followed by one more byte -/
+def exSym (name : Nat) : Fields :=
+  [("st_name", .int name), ("st_info", .record [("bind", .int 1), ("type", .int 2)]),
+   ("st_other", .record [("local", .int 0), ("visibility", .int 0)]), ("st_shndx", .int 0),
+   ("st_value", .int 0x1000), ("st_size", .int 8)]
+
+def exSymBytes : Bytes :=
+  [0, 0, 0, 0, 0x12, 0, 0, 0, 0, 0x10, 0, 0, 0, 0, 0, 0, 8, 0, 0, 0, 0, 0, 0, 0,
+   6, 0, 0, 0, 0x12, 0, 0, 0, 0, 0x10, 0, 0, 0, 0, 0, 0, 8, 0, 0, 0, 0, 0, 0, 0]
+
+theorem exSym_enc : encAll (S exCfg).Elf_Sym ([exSym 0, exSym 6].map .record) = some exSymBytes := by
+  simp [encAll, exSym, exCfg, S, elfStructs, st, mkFields, f, enumOf, Con.encodeRaw, ConFields.encodeRaw, Fields.get?,
+    packBits, bind, Option.bind, pure]
+  decide
+
+example : ∃ es, SymView elfEnv (S exCfg) ([9, 9] ++ exSymBytes ++ [7]) 2 [exSym 0, exSym 6] es :=
+  symView_of elfEnv exCfg _ 2 _ exSymBytes [7] exSym_enc (by decide)
+
+def exHashD : DynDesc :=
+  { cls := 64, le := true, mclass := "default", solaris := false, ehdr := [], tags := [], dynOff := 0,
+    strtab := [], strOff := 0, syms := [exSym 0, exSym 6], symOff := 0, sysv := some (⟨[0], [0, 0]⟩, 0),
+    segments := [], phoff := 0, shoff := 0, phentsize := 0, shentsize := 0 }
+example : hashOk exHashD = true := by decide
+
+/- Non-vacuity of `DynDesc.WF` (hypothesis of `segment_view_eq_section_view`): `DynLayout` is inhabited
+   by the assembler's output (`assemble_dynLayout`); `DynDesc.WF` itself is evaluated by the driver on
+   every generated description (`wf` ∧ `wf_c01` of Driver/C09.lean; the harness counts the cases in
+   the theorem's domain as `…:WF-theorem-domain`).  A kernel-checked `example` is not available:
+   `Con.encodeRaw` / `Con.decodeRaw` are compiled by well-founded recursion and do not reduce in the
+   kernel, and a `simp`-evaluated instance of `ElfDesc.wf` was not attempted. -/
 
 end PyElf.Props.C09
